@@ -32,6 +32,9 @@ static const vrt_field_t node_fields[] = {
     {"next", offsetof(mpsc_fifo_node_t, next), 8, VD_PTR, 0, 0},
 };
 int vrt_fiber_track_nodes = 1;
+static struct { fiber_t* f; uintptr_t lo, hi; } g_stk[64];
+static int g_nstk;
+
 
 void libfiber_verif_fiber_created(fiber_t* f, int from_thread) {
   int o = vrt_in_rt_push();
@@ -61,8 +64,38 @@ void libfiber_verif_fiber_created(fiber_t* f, int from_thread) {
     snprintf(nm2, sizeof nm2, "stk_%s", nm);
     vrt_reg_name(nm2, f->context.ctx_stack, f->context.ctx_stack_size);
     vrt_watch_free(f->context.ctx_stack);
+    if (g_nstk < 64) {
+      g_stk[g_nstk].f = f;
+      g_stk[g_nstk].lo = (uintptr_t)f->context.ctx_stack;
+      g_stk[g_nstk].hi = g_stk[g_nstk].lo + f->context.ctx_stack_size;
+      g_nstk++;
+    }
   }
   vrt_in_rt_pop(o);
+}
+
+/* stacks of created fibers, for the foreign-stack-access oracle (VRT_XSTACK=1):
+ * a plain access by kernel thread T into the stack of a fiber that is RUNNING on
+ * another kernel thread races with that fiber popping the frame */
+extern void vrt_emit_raw(const char* fmt, ...);
+extern const char* vrt_fn_of(uintptr_t pc);
+void vrt_glue_plain_access(uintptr_t addr, size_t size, int iswrite, uintptr_t pc) {
+  (void)size;
+  for (int i = 0; i < g_nstk; i++) {
+    if (addr < g_stk[i].lo || addr >= g_stk[i].hi) continue;
+    int idx = vrt_thread_index();
+    fiber_t* mine = idx >= 0 ? *(fiber_t**)vrt_running_slot(idx) : NULL;
+    fiber_t* owner = g_stk[i].f;
+    if (owner == mine) return;
+    /* owner running elsewhere: it may pop the frame any time; owner suspended: everything
+       below its saved stack pointer is gone */
+    if (owner->state == FIBER_STATE_RUNNING ||
+        (owner->context.ctx_stack_pointer && addr < (uintptr_t)owner->context.ctx_stack_pointer &&
+         owner->state != FIBER_STATE_SAVING_STATE_TO_WAIT))
+      vrt_emit_raw("\"k\":\"xstack\",\"o\":\"%s\",\"acc\":\"%s\",\"fn\":\"%s\"", vrt_name_of(owner),
+                   iswrite ? "W" : "R", vrt_fn_of(pc));
+    return;
+  }
 }
 
 void vrt_glue_switch(void* handle) {
